@@ -951,6 +951,13 @@ class Executor(Generic[TContext]):
             abort = ensure_future(abort_signal.wait())
             try:
                 await wait({task, abort}, return_when=FIRST_COMPLETED)
+            except BaseException:
+                # Cancelled from outside (e.g. when the incremental work is
+                # cancelled): the wrapped awaitable must not be left running.
+                task.cancel()
+                with suppress(BaseException):
+                    await task
+                raise
             finally:
                 if not abort.done():
                     abort.cancel()
